@@ -227,6 +227,19 @@ def chain(e: ast.AST, is_leaf: Callable[[ast.AST], bool], resolve_call: Callable
             leaf = rec(n.left)
             ops.append(f"and:{n.right.value}")          # one bit (or mask) of a bit field
             return leaf
+        if isinstance(n, ast.Compare) and len(n.ops) == 1 and isinstance(n.comparators[0], ast.Constant) and isinstance(n.left, ast.BinOp) and \
+                isinstance(n.left.right, ast.Constant) and type(n.left.right.value) is int and type(n.comparators[0].value) is int:
+            # a bit of a bit field tested by comparison: x % 2 == 1, x % 2 != 0, x & M == M, x & M != 0  ==  bool(x & M), M one bit
+            m, c = n.left.right.value, n.comparators[0].value
+            bit = None
+            if isinstance(n.left.op, ast.Mod) and m == 2:
+                bit = 1
+            elif isinstance(n.left.op, ast.BitAnd) and m > 0 and m & (m - 1) == 0:
+                bit = m
+            if bit is not None and ((isinstance(n.ops[0], ast.Eq) and c == bit) or (isinstance(n.ops[0], (ast.NotEq, ast.Gt)) and c == 0)):
+                leaf = rec(n.left.left)
+                ops.extend([f"and:{bit}", "bool"])
+                return leaf
         raise Unknown(f"unmodelled wrapper {type(n).__name__}: {ast.unparse(n)[:60]}")
 
     leaf = rec(e)
